@@ -746,7 +746,12 @@ class OpHarness:
         m = it.class_lookup(s.cls, name)
         if m is None:
             return NOTSET
-        return it.call(BoundMethod(s, m), args, {})
+        prev = getattr(it.world, "side", "impl")
+        it.world.side = "spec"  # nullary user functions are counted per side (k-th call of the real code = k-th of the spec)
+        try:
+            return it.call(BoundMethod(s, m), args, {})
+        finally:
+            it.world.side = prev
 
     def spec_done(self, it, ctx, s):
         m = it.class_lookup(s.cls, "done")
